@@ -112,7 +112,7 @@ DATA_CORPUS = [
 # round 5: text with lone surrogates (high alone, low alone; never a high directly followed by a low - outside the
 # domain, notes/agents/JSON.md), astral code points, NUL, U+2028 as values and keys; and the same kinds of values built
 # from dict / list / str / int SUBCLASSES at every depth (harness/edgevals.py).  All of them round-trip on the three back
-# ends of the unchanged tree (/tmp/fix6-data/probe_roundtrip.py; notes/agents/C01.md "Round 5").
+# ends of the unchanged tree (notes/probes/fix6_roundtrip.py; notes/agents/C01.md "Round 5").
 N_PLAIN_CORPUS = len(DATA_CORPUS)
 DATA_CORPUS += [copy.deepcopy(d) for d in ev.EDGE_DATA] + [v for _, v in ev.dressed_corpus()]
 DATA_CORPUS += [ev.dress(DATA_CORPUS[k], st) for k, st in ((4, "mixed"), (5, "listsub"), (9, "all"), (10, "scalars"), (11, "odict"))]
